@@ -253,8 +253,14 @@ pub fn gen_len(rng: &mut Rng, kind: LenKind) -> f64 {
                 1e21,
                 1e-5,
             ];
-            if rng.chance(1, 2) {
+            if rng.chance(1, 3) {
                 *rng.pick(&specials)
+            } else if rng.chance(1, 3) {
+                // a short decimal mantissa at a far-away exponent (1.5e-29, 7.25e-100, 3e40): Display writes these positionally, with
+                // dozens of zeros; the correctly rounded value of that text is the number itself
+                let m = rng.range(1, 999_999_999);
+                let e = *rng.pick(&[-300i32, -250, -100, -60, -40, -31, -29, -25, -23, 25, 40, 100, 250]) - rng.below(9) as i32;
+                format!("{m}e{e}").parse::<f64>().unwrap()
             } else {
                 loop {
                     let v = f64::from_bits(rng.next());
